@@ -1,5 +1,13 @@
 package transfer
 
+import (
+	"fmt"
+	"sync"
+
+	"github.com/sheerbytes/sheerbytes/internal/bufpool"
+	"github.com/sheerbytes/sheerbytes/internal/verifsim"
+)
+
 // Overlay-only shim (simulation builds): lets harnesses of other packages give
 // every run its own read pool, so that no pool goroutine outlives its bubble.
 
@@ -8,4 +16,23 @@ func VerifResetReadPool(n int) (stop func()) {
 	pool := newReadPool(n)
 	globalReadPool = pool
 	return func() { close(pool.jobs) }
+}
+
+// verifChunkPoolFor stands in for chunkPoolFor in simulation builds: the buffer
+// pools are process-wide state, and the simulated sender and receiver are two
+// processes, so each node name gets pools of its own. Whether a size has a pool
+// at all is still chunkPoolFor's decision.
+var verifNodePools sync.Map
+
+func verifChunkPoolFor(chunkSize uint32) *bufpool.Pool {
+	base := chunkPoolFor(chunkSize)
+	if base == nil || verifsim.S == nil {
+		return base
+	}
+	key := fmt.Sprintf("%s/%d", verifsim.NodeOf(verifsim.Name()), chunkSize)
+	if p, ok := verifNodePools.Load(key); ok {
+		return p.(*bufpool.Pool)
+	}
+	p, _ := verifNodePools.LoadOrStore(key, bufpool.New(int(chunkSize)))
+	return p.(*bufpool.Pool)
 }
